@@ -59,6 +59,8 @@ def run(ctx):
               "find skip 99999999999999999999 'a'", "find take 99999999999999999999 'a'", "find top 99999999999999999999 'a'", "find last 99999999999999999999 'a'",
               "find skip 1 take 99999999999999999999 'a'", "find all at least 99999999999999999999 'a'", "find all at most 99999999999999999999 'a'",
               "find all between 99999999999999999999 and 3 'a'", "find all between 1 and 99999999999999999999 'a'", "find all exactly 99999999999999999999 'a'",
+              "find all at least 9223372036854775807 'a' named x", "find all exactly 9223372036854775807 'a' named x", "find all between 9223372036854775806 and 9223372036854775807 'a' named x",
+              "find all at least 17592186044414 'a' named x", "replace all at least 9223372036854775805 'a' named x with 'b'", "set p to pattern at least 9223372036854775807 'a' named x\nfind all p",
               "find all @/a{99999999999999999999}/", "find all @/a{1,99999999999999999999}/", "find skip 1 take", "find skip 1 take x 'a'",
               # names and classes cut short or followed by the wrong word
               "find all exactly x 'a'", "find all exactly 2 'a' named", "find all exactly 2 'a' named 3", "find all at least 1 'a' named", "find all at least 1 'a' named 3", "find all exactly 2 'a' named n",
